@@ -204,3 +204,270 @@ Proof.
   - intros x Hxin. rewrite Hlog in Hxin. specialize (Ilog x Hxin). unfold log_ok in *. rewrite Hx, Hk. exact Ilog.
   - rewrite Hlog. exact Iln.
 Qed.
+
+Lemma NoDup_app_single : forall A (l : list A) x, ~ In x l -> NoDup l -> NoDup (l ++ [x]).
+Proof.
+  induction l as [|y l IH]; intros x Hx Hn; cbn; [constructor; auto; constructor|].
+  inversion Hn; subst. constructor.
+  - rewrite in_app_iff. cbn. intros [H|[H|[]]]; auto. subst. apply Hx. cbn. auto.
+  - apply IH; auto. intro. apply Hx. cbn. auto.
+Qed.
+
+Lemma can_pc_in : forall p m, In m (can_pc p) -> p = CKLock m.
+Proof. intros p m H. destruct p; cbn in H; try contradiction. destruct H as [->|[]]. reflexivity. Qed.
+
+(* ------------------------------------------------------------------ a client changes the ownership of node n *)
+Lemma Inv_trans : forall s s' t p' n sl',
+  Inv s -> (n < nslots s)%nat ->
+  let sl := slot_at s n in
+  (sst sl = SQueued \/ sst sl = SCan t \/ sst sl = SFin t \/ sst sl = SHeld t) ->
+  (sst sl' = SCan t \/ sst sl' = SHeld t \/ sst sl' = SFree \/ sst sl' = SFin t) ->
+  nidv sl' = nidv sl -> nco sl' = nco sl -> nwi sl' = nwi sl -> nex sl' = nex sl ->
+  ver sl <= ver sl' -> (ver sl' = ver sl -> sst sl <> SQueued) ->
+  slot_at s' n = sl' -> (forall m, m <> n -> same_core (slot_at s' m) (slot_at s m)) -> nslots s' = nslots s ->
+  coros s' = coros s -> nver s' = nver s -> tokens s' = tokens s -> bad s' = bad s -> rlog s' = rlog s ->
+  (forall t', t' <> t -> cst s' t' = cst s t') -> cst s' t = p' ->
+  NoDup (held_pc p') ->
+  (forall m, m <> n -> (In m (held_pc p') <-> In m (held_pc (cst s t)))) -> (In n (held_pc p') <-> sst sl' = SHeld t) ->
+  (forall m, m <> n -> (In m (fin_pc p') <-> In m (fin_pc (cst s t)))) -> (In n (fin_pc p') <-> sst sl' = SFin t) ->
+  (forall m, m <> n -> (In m (can_pc p') <-> In m (can_pc (cst s t)))) -> (In n (can_pc p') <-> sst sl' = SCan t) ->
+  (chain_pc p' <> [] -> mtx s' = Some t) ->
+  (mtx s' = mtx s \/ (mtx s = None /\ mtx s' = Some t) \/ (mtx s = Some t /\ mtx s' = None)) ->
+  slot_ok s' n ->
+  (forall i j, kstat s i = KSusp j n -> sst sl' <> SFree /\ sst sl' <> SFin t) ->
+  NoDup (vis s') -> (forall m, In m (vis s') -> In m (vis s)) ->
+  (forall m, In m (vis s) -> ~ In m (vis s') -> m = n \/ exists t', sst (slot_at s m) = SCan t') ->
+  (In n (vis s') -> exists t', sst sl' = SCan t') ->
+  NoDup (freel s') -> (forall m, In m (freel s') -> In m (freel s) \/ (m = n /\ sst sl' = SFree)) ->
+  (forall m, In m (freel s) -> In m (freel s')) ->
+  (forall m, In m (lst s') -> linked (slot_at s' m) = true) ->
+  Inv s'.
+Proof.
+  intros s s' t p' n sl' I Hn sl Hg Hg' En Ec Ew Ee Hv Hv2 Hsn Hsl Hns Hco Hnv Htk Hbad Hlog Hcne Hct Hhnd
+         Hh Hhn Hf Hfn Hc Hcn Hch Hm Hnok Hks Hnd Hvin Hvdrop Hvn Hfnd Hfin Hfkeep Hlk.
+  assert (Hk : forall i, kstat s' i = kstat s i) by (intro; apply kstat_frame; auto).
+  assert (Hx : forall i, kex s' i = kex s i) by (intro; apply kex_frame; auto).
+  destruct I as [Is It Ic Ivn Iv Ifn If Il Itok Ib Ilog Iln].
+  assert (Hown : forall t0 m, t0 <> t ->
+            (sst (slot_at s m) = SHeld t0 \/ sst (slot_at s m) = SFin t0 \/ sst (slot_at s m) = SCan t0) -> m <> n).
+  { intros t0 m Ht0 Hs Hmn. subst m. fold sl in Hs. destruct Hg as [G|[G|[G|G]]]; rewrite G in Hs;
+      destruct Hs as [Hs|[Hs|Hs]]; congruence. }
+  constructor.
+  - intros m Hmlt. destruct (Nat.eq_dec m n) as [->|Hmn]; [exact Hnok|].
+    rewrite Hns in Hmlt. specialize (Is m Hmlt). unfold slot_ok in *.
+    destruct (Hsl m Hmn) as (e1 & e2 & e3 & e4 & e5 & e6). rewrite e1, e2, e3, e4, e5, e6, Hnv, Hx, Hk.
+    destruct Is as (A & B & C). split; [exact A|]. split; [exact B|].
+    destruct (sst (slot_at s m)) as [| | |t0|t0|t0] eqn:E; auto.
+    + destruct C as (C1 & C2). split; auto.
+    + destruct C as (C1 & C2 & C3). repeat split; auto.
+      destruct (in_dec Nat.eq_dec m (vis s')) as [|Hni]; auto.
+      destruct (Hvdrop m C3 Hni) as [|[t' Ht']]; congruence.
+    + destruct C as (C1 & C2 & C3). repeat split; auto.
+      destruct (Nat.eq_dec t0 t) as [->|Ht0]; [|rewrite Hcne; auto].
+      rewrite Hct. apply can_pc_in. apply Hc; auto. rewrite C1. cbn. auto.
+    + destruct C as (C1 & C2 & C3). repeat split; auto.
+      destruct (Nat.eq_dec t0 t) as [->|Ht0]; [|rewrite Hcne; auto]. rewrite Hct. apply Hh; auto.
+    + destruct C as (C1 & C2). split; auto.
+      destruct (Nat.eq_dec t0 t) as [->|Ht0]; [|rewrite Hcne; auto]. rewrite Hct. apply Hf; auto.
+  - intro t'. unfold thread_ok. rewrite Hns. destruct (Nat.eq_dec t' t) as [->|Ht'].
+    + rewrite Hct. specialize (It t). unfold thread_ok in It. destruct It as (A & B & C & D & E).
+      split; [exact Hhnd|]. split; [|split; [|split]].
+      * intros m Hm'. destruct (Nat.eq_dec m n) as [->|Hmn].
+        -- split; auto. rewrite Hsn. apply Hhn. exact Hm'.
+        -- destruct (Hsl m Hmn) as (_ & _ & _ & _ & _ & e6). rewrite e6. apply B. apply Hh; auto.
+      * intros m Hm'. destruct (Nat.eq_dec m n) as [->|Hmn].
+        -- split; auto. rewrite Hsn. apply Hfn. exact Hm'.
+        -- destruct (Hsl m Hmn) as (_ & _ & _ & _ & _ & e6). rewrite e6. apply C. apply Hf; auto.
+      * intros m Hm'. destruct (Nat.eq_dec m n) as [->|Hmn].
+        -- split; auto. rewrite Hsn. apply Hcn. exact Hm'.
+        -- destruct (Hsl m Hmn) as (_ & _ & _ & _ & _ & e6). rewrite e6. apply D. apply Hc; auto.
+      * exact Hch.
+    + rewrite Hcne by auto. specialize (It t'). unfold thread_ok in It. destruct It as (A & B & C & D & E).
+      split; [exact A|]. split; [|split; [|split]].
+      * intros m Hm'. destruct (B m Hm') as [B1 B2]. assert (m <> n) by (eapply Hown; eauto).
+        destruct (Hsl m H) as (_ & _ & _ & _ & _ & e6). rewrite e6. auto.
+      * intros m Hm'. destruct (C m Hm') as [B1 B2]. assert (m <> n) by (eapply Hown; eauto).
+        destruct (Hsl m H) as (_ & _ & _ & _ & _ & e6). rewrite e6. auto.
+      * intros m Hm'. destruct (D m Hm') as [B1 B2]. assert (m <> n) by (eapply Hown; eauto).
+        destruct (Hsl m H) as (_ & _ & _ & _ & _ & e6). rewrite e6. auto.
+      * intro Hne. specialize (E Hne). destruct Hm as [Hm|[[Hm _]|[Hm _]]]; congruence.
+  - intro i. specialize (Ic i). unfold coro_ok in *. rewrite Hk, Hns.
+    destruct (kstat s i) eqn:Ek; auto.
+    + destruct Ic as (A & B & C & D). assert (n0 <> n).
+      { intro; subst n0. fold sl in B. destruct Hg as [G|[G|[G|G]]]; congruence. }
+      destruct (Hsl n0 H) as (_ & _ & e3 & e4 & _ & e6). rewrite e3, e4, e6. auto.
+    + destruct Ic as (A & B & C & D). destruct (Nat.eq_dec n0 n) as [->|Hmn].
+      * rewrite Hsn, Ec, Ew. repeat split; auto. destruct (Hks _ _ Ek) as [K1 K2].
+        destruct Hg' as [G|[G|[G|G]]]; try congruence; right; exists t; auto.
+      * destruct (Hsl n0 Hmn) as (_ & _ & e3 & e4 & _ & e6). rewrite e3, e4, e6. auto.
+  - exact Hnd.
+  - intros m Hm'. rewrite Hns. destruct (Nat.eq_dec m n) as [->|Hmn].
+    + split; auto. rewrite Hsn. right. apply Hvn. exact Hm'.
+    + destruct (Hsl m Hmn) as (_ & _ & _ & _ & _ & e6). rewrite e6. apply Iv. auto.
+  - exact Hfnd.
+  - intros m Hm'. rewrite Hns. destruct (Hfin m Hm') as [Hold|[-> Hfree]].
+    + destruct (If m Hold) as [F1 F2]. assert (m <> n).
+      { intro; subst m. fold sl in F2. destruct Hg as [G|[G|[G|G]]]; congruence. }
+      destruct (Hsl m H) as (_ & _ & _ & _ & _ & e6). rewrite e6. auto.
+    + rewrite Hsn. auto.
+  - exact Hlk.
+  - intros x Hxin. rewrite Htk in Hxin. specialize (Itok x Hxin). unfold tok_ok in *. rewrite Hns.
+    destruct (Nat.eq_dec (fst (snd x)) n) as [Hxn|Hxn].
+    + rewrite Hxn in *. rewrite Hsn. fold sl in Itok. destruct Itok as (T1 & T2 & T3). split; auto. split; [lia|].
+      intro Heq. exfalso. assert (ver sl' = ver sl) by lia. apply (Hv2 H). apply T3. lia.
+    + destruct (Hsl _ Hxn) as (e1 & _ & _ & _ & _ & e6). rewrite e1, e6. exact Itok.
+  - congruence.
+  - intros x Hxin. rewrite Hlog in Hxin. specialize (Ilog x Hxin). unfold log_ok in *. rewrite Hx, Hk. exact Ilog.
+  - rewrite Hlog. exact Iln.
+Qed.
+
+(* ------------------------------------------------------------------ the owner of node n resumes its coroutine *)
+Lemma Inv_resume : forall s s' t p' n sl',
+  Inv s -> (n < nslots s)%nat ->
+  let sl := slot_at s n in
+  sst sl = SHeld t -> sst sl' = SFin t ->
+  ver sl' = ver sl -> nidv sl' = nidv sl -> nco sl' = nco sl -> nwi sl' = nwi sl -> nex sl' = nex sl ->
+  slot_at s' n = sl' -> (forall m, m <> n -> same_core (slot_at s' m) (slot_at s m)) -> nslots s' = nslots s ->
+  kstat s' (nco sl) = KResumed (nwi sl) -> (forall i', i' <> nco sl -> kstat s' i' = kstat s i') ->
+  (forall i', kex s' i' = kex s i') ->
+  nver s' = nver s -> tokens s' = tokens s -> bad s' = bad s -> rlog s' = rlog s ++ [(nco sl, nwi sl, nex sl)] ->
+  freel s' = freel s -> lst s' = lst s -> mtx s' = mtx s ->
+  (forall t', t' <> t -> cst s' t' = cst s t') -> cst s' t = p' ->
+  chain_pc p' = chain_pc (cst s t) ->
+  NoDup (held_pc p') ->
+  (forall m, m <> n -> (In m (held_pc p') <-> In m (held_pc (cst s t)))) -> ~ In n (held_pc p') ->
+  (forall m, m <> n -> (In m (fin_pc p') <-> In m (fin_pc (cst s t)))) -> In n (fin_pc p') ->
+  can_pc p' = can_pc (cst s t) ->
+  (forall m, In m (lst s') -> linked (slot_at s' m) = true) ->
+  Inv s'.
+Proof.
+  intros s s' t p' n sl' I Hn sl Hg Hg' Ev En Ec Ew Ee Hsn Hsl Hns Hki Hkne Hx Hnv Htk Hbad Hlog Hfr Hlst Hmtx
+         Hcne Hct Hchain Hhnd Hh Hhn Hf Hfn Hc Hlk.
+  destruct I as [Is It Ic Ivn Iv Ifn If Il Itok Ib Ilog Iln].
+  pose proof (Is n Hn) as Isn. unfold slot_ok in Isn. fold sl in Isn. rewrite Hg in Isn.
+  destruct Isn as (N1 & N2 & N3 & N4 & N5).
+  assert (Hvis : vis s' = vis s).
+  { unfold vis. rewrite Hlst, Hmtx. destruct (mtx s) as [t0|]; auto. f_equal.
+    destruct (Nat.eq_dec t0 t) as [->|Ht0]; [rewrite Hct; auto | rewrite Hcne; auto]. }
+  assert (Hown : forall t0 m, t0 <> t ->
+            (sst (slot_at s m) = SHeld t0 \/ sst (slot_at s m) = SFin t0 \/ sst (slot_at s m) = SCan t0) -> m <> n).
+  { intros t0 m Ht0 Hs Hmn. subst m. fold sl in Hs. rewrite Hg in Hs. destruct Hs as [Hs|[Hs|Hs]]; congruence. }
+  (* a slot other than n whose state depends on the status of coroutine (nco sl) would be n *)
+  assert (Hkk : forall m, m <> n -> forall K, (K = KLock (nwi (slot_at s m)) m \/ K = KSusp (nwi (slot_at s m)) m) ->
+            kstat s (nco (slot_at s m)) = K -> kstat s' (nco (slot_at s m)) = K).
+  { intros m Hmn K HK HKs. destruct (Nat.eq_dec (nco (slot_at s m)) (nco sl)) as [e|e]; [|rewrite Hkne; auto].
+    exfalso. rewrite e in HKs. rewrite N4 in HKs. destruct HK as [->| ->]; congruence. }
+  constructor.
+  - intros m Hmlt. rewrite Hns in Hmlt. destruct (Nat.eq_dec m n) as [->|Hmn].
+    + unfold slot_ok. rewrite Hsn, Hg', Ev, En, Ec, Ee, Hnv, Hx, Hct. repeat split; auto.
+    + specialize (Is m Hmlt). unfold slot_ok in *.
+      destruct (Hsl m Hmn) as (e1 & e2 & e3 & e4 & e5 & e6). rewrite e1, e2, e3, e4, e5, e6, Hnv, Hx, Hfr, Hvis.
+      destruct Is as (A & B & C). split; [exact A|]. split; [exact B|].
+      destruct (sst (slot_at s m)) as [| | |t0|t0|t0] eqn:E; auto.
+      * destruct C as (C1 & C2). split; auto.
+      * destruct C as (C1 & C2 & C3). repeat split; auto.
+      * destruct C as (C1 & C2 & C3). repeat split; auto.
+        destruct (Nat.eq_dec t0 t) as [->|Ht0]; [|rewrite Hcne; auto].
+        rewrite Hct. apply can_pc_in. rewrite Hc, C1. cbn. auto.
+      * destruct C as (C1 & C2 & C3). repeat split; auto.
+        destruct (Nat.eq_dec t0 t) as [->|Ht0]; [|rewrite Hcne; auto]. rewrite Hct. apply Hh; auto.
+      * destruct C as (C1 & C2). split; auto.
+        destruct (Nat.eq_dec t0 t) as [->|Ht0]; [|rewrite Hcne; auto]. rewrite Hct. apply Hf; auto.
+  - intro t'. unfold thread_ok. rewrite Hns. destruct (Nat.eq_dec t' t) as [->|Ht'].
+    + rewrite Hct. specialize (It t). unfold thread_ok in It. destruct It as (A & B & C & D & E).
+      split; [exact Hhnd|]. split; [|split; [|split]].
+      * intros m Hm'. destruct (Nat.eq_dec m n) as [->|Hmn]; [contradiction|].
+        destruct (Hsl m Hmn) as (_ & _ & _ & _ & _ & e6). rewrite e6. apply B. apply Hh; auto.
+      * intros m Hm'. destruct (Nat.eq_dec m n) as [->|Hmn].
+        -- split; auto. rewrite Hsn. exact Hg'.
+        -- destruct (Hsl m Hmn) as (_ & _ & _ & _ & _ & e6). rewrite e6. apply C. apply Hf; auto.
+      * intros m Hm'. rewrite Hc in Hm'. destruct (D m Hm') as [D1 D2]. assert (m <> n).
+        { intro; subst m. fold sl in D2. congruence. }
+        destruct (Hsl m H) as (_ & _ & _ & _ & _ & e6). rewrite e6. auto.
+      * rewrite Hchain, Hmtx. exact E.
+    + rewrite Hcne by auto. specialize (It t'). unfold thread_ok in It. destruct It as (A & B & C & D & E).
+      split; [exact A|]. split; [|split; [|split]].
+      * intros m Hm'. destruct (B m Hm') as [B1 B2]. assert (m <> n) by (eapply Hown; eauto).
+        destruct (Hsl m H) as (_ & _ & _ & _ & _ & e6). rewrite e6. auto.
+      * intros m Hm'. destruct (C m Hm') as [B1 B2]. assert (m <> n) by (eapply Hown; eauto).
+        destruct (Hsl m H) as (_ & _ & _ & _ & _ & e6). rewrite e6. auto.
+      * intros m Hm'. destruct (D m Hm') as [B1 B2]. assert (m <> n) by (eapply Hown; eauto).
+        destruct (Hsl m H) as (_ & _ & _ & _ & _ & e6). rewrite e6. auto.
+      * rewrite Hmtx. exact E.
+  - intro i. unfold coro_ok. rewrite Hns. destruct (Nat.eq_dec i (nco sl)) as [->|Hi]; [rewrite Hki; exact I|].
+    rewrite Hkne by auto. specialize (Ic i). unfold coro_ok in Ic.
+    destruct (kstat s i) eqn:Ek; auto.
+    + destruct Ic as (A & B & C & D). assert (n0 <> n) by (intro; subst n0; fold sl in B; congruence).
+      destruct (Hsl n0 H) as (_ & _ & e3 & e4 & _ & e6). rewrite e3, e4, e6. auto.
+    + destruct Ic as (A & B & C & D). assert (n0 <> n) by (intro; subst n0; fold sl in B; congruence).
+      destruct (Hsl n0 H) as (_ & _ & e3 & e4 & _ & e6). rewrite e3, e4, e6. auto.
+  - rewrite Hvis. exact Ivn.
+  - intros m Hm'. rewrite Hvis in Hm'. rewrite Hns. destruct (Iv m Hm') as [V1 V2]. assert (m <> n).
+    { intro; subst m. fold sl in V2. rewrite Hg in V2. destruct V2 as [V2|[t' V2]]; congruence. }
+    destruct (Hsl m H) as (_ & _ & _ & _ & _ & e6). rewrite e6. auto.
+  - rewrite Hfr. exact Ifn.
+  - intros m Hm'. rewrite Hfr in Hm'. rewrite Hns. destruct (If m Hm') as [F1 F2]. assert (m <> n).
+    { intro; subst m. fold sl in F2. congruence. }
+    destruct (Hsl m H) as (_ & _ & _ & _ & _ & e6). rewrite e6. auto.
+  - exact Hlk.
+  - intros x Hxin. rewrite Htk in Hxin. specialize (Itok x Hxin). unfold tok_ok in *. rewrite Hns.
+    destruct (Nat.eq_dec (fst (snd x)) n) as [Hxn|Hxn].
+    + rewrite Hxn in *. rewrite Hsn, Ev, Hg'. fold sl in Itok. rewrite Hg in Itok. destruct Itok as (T1 & T2 & T3).
+      split; auto. split; auto. intro Heq. specialize (T3 Heq). discriminate.
+    + destruct (Hsl _ Hxn) as (e1 & _ & _ & _ & _ & e6). rewrite e1, e6. exact Itok.
+  - congruence.
+  - intros x Hxin. rewrite Hlog in Hxin. apply in_app_or in Hxin. destruct Hxin as [Hxin|[<-|[]]].
+    + specialize (Ilog x Hxin). unfold log_ok in *. rewrite Hx. destruct Ilog as [L1 L2]. split; auto.
+      destruct (Nat.eq_dec (fst (fst x)) (nco sl)) as [e|e]; [|rewrite Hkne; auto].
+      rewrite e in *. rewrite Hki. rewrite N4 in L2. cbn in *. lia.
+    + unfold log_ok. cbn. rewrite Hx, Hki. split; auto. cbn. lia.
+  - rewrite Hlog, map_app. cbn. apply NoDup_app_single. 2: exact Iln.
+    intro Hin. apply in_map_iff in Hin. destruct Hin as (x & Hx1 & Hx2). specialize (Ilog x Hx2). unfold log_ok in Ilog.
+    destruct Ilog as [_ L2]. destruct x as [[a b] e]. cbn in *. inversion Hx1; subst. rewrite N4 in L2. cbn in L2. lia.
+Qed.
+
+(* ------------------------------------------------------------------ a coroutine step that touches no node *)
+Lemma Inv_kmove : forall s s' i K',
+  Inv s ->
+  (forall j n, kstat s i <> KLock j n) -> (forall j n, kstat s i <> KSusp j n) ->
+  (forall j n, K' <> KLock j n) -> (forall j n, K' <> KSusp j n) ->
+  (forall j, passed (kstat s i) j -> passed K' j) ->
+  slots s' = slots s -> clients s' = clients s -> lst s' = lst s -> mtx s' = mtx s -> freel s' = freel s ->
+  nver s' = nver s -> tokens s' = tokens s -> bad s' = bad s -> rlog s' = rlog s ->
+  kstat s' i = K' -> (forall i', i' <> i -> kstat s' i' = kstat s i') -> (forall i', kex s' i' = kex s i') ->
+  Inv s'.
+Proof.
+  intros s s' i K' I N1 N2 N3 N4 Hp Hsl Hcl Hlst Hmtx Hfr Hnv Htk Hbad Hlog Hki Hkne Hx.
+  assert (Hs : forall m, slot_at s' m = slot_at s m) by (intro; apply slot_at_frame; auto).
+  assert (Hc : forall t, cst s' t = cst s t) by (intro; apply cst_frame; auto).
+  assert (Hns : nslots s' = nslots s) by (unfold nslots; now rewrite Hsl).
+  assert (Hvis : vis s' = vis s) by (unfold vis; rewrite Hlst, Hmtx; destruct (mtx s); auto; now rewrite Hc).
+  destruct I as [Is It Ic Ivn Iv Ifn If Il Itok Ib Ilog Iln].
+  assert (Hkk : forall i' K, kstat s i' = K -> (exists j n, K = KLock j n \/ K = KSusp j n) -> kstat s' i' = K).
+  { intros i' K HK (j & n & HJ). destruct (Nat.eq_dec i' i) as [->|Hn]; [|rewrite Hkne; auto].
+    exfalso. destruct HJ as [->| ->]; [eapply N1|eapply N2]; eauto. }
+  constructor.
+  - intros m Hm. rewrite Hns in Hm. specialize (Is m Hm). unfold slot_ok in *. rewrite Hs, Hnv, Hx, Hfr, Hvis.
+    destruct Is as (A & B & C). split; [exact A|]. split; [exact B|].
+    destruct (sst (slot_at s m)) as [| | |t0|t0|t0]; auto; rewrite ?Hc.
+    + destruct C as (C1 & C2). split; auto. apply Hkk; eauto.
+    + destruct C as (C1 & C2 & C3). repeat split; auto. apply Hkk; eauto.
+    + destruct C as (C1 & C2 & C3). repeat split; auto. apply Hkk; eauto.
+    + destruct C as (C1 & C2 & C3). repeat split; auto. apply Hkk; eauto.
+  - intro t. specialize (It t). unfold thread_ok in *. rewrite Hc, Hns, Hmtx.
+    destruct It as (A & B & C & D & E). repeat split; auto; intros n Hn; rewrite ?Hs; try (apply B; auto); try (apply C; auto);
+      try (apply D; auto).
+  - intro i'. unfold coro_ok. rewrite Hns. destruct (Nat.eq_dec i' i) as [->|Hn].
+    + rewrite Hki. destruct K'; auto; exfalso; [eapply N3|eapply N4]; eauto.
+    + rewrite Hkne by auto. specialize (Ic i'). unfold coro_ok in Ic. destruct (kstat s i'); auto; rewrite Hs; auto.
+  - rewrite Hvis; auto.
+  - intros n Hn. rewrite Hvis in Hn. rewrite Hns, Hs. auto.
+  - rewrite Hfr; auto.
+  - intros n Hn. rewrite Hfr in Hn. rewrite Hns, Hs. auto.
+  - intros n Hn. rewrite Hlst in Hn. rewrite Hs. auto.
+  - intros x Hxin. rewrite Htk in Hxin. specialize (Itok x Hxin). unfold tok_ok in *. rewrite Hns, Hs. auto.
+  - congruence.
+  - intros x Hxin. rewrite Hlog in Hxin. specialize (Ilog x Hxin). unfold log_ok in *. rewrite Hx. destruct Ilog as [L1 L2].
+    split; auto. destruct (Nat.eq_dec (fst (fst x)) i) as [e|e]; [|rewrite Hkne; auto]. rewrite e in *. rewrite Hki. auto.
+  - rewrite Hlog; auto.
+Qed.
